@@ -440,6 +440,8 @@ func lookupField(t types.Type, name string) ([]int, types.Type) {
 func (ev *Eval) index(n *ast.IndexExpr) Value {
 	base := ev.eval(n.X)
 	switch w := base.(type) {
+	case *UndefV:
+		return w
 	case *SliceV:
 		i := ev.term(n.Index)
 		return ev.x.loadObj(ev.st, "A", w.Elem, w.Ptr, Sidx(w.Off, i), "", w.Elem)
@@ -658,6 +660,11 @@ func (ev *Eval) callExpr(n *ast.CallExpr) Value {
 		return &Prim{T: Eq(ev.boolOf(n.Args[0]), ev.boolOf(n.Args[1]))}
 	case "ite":
 		c := ev.boolOf(n.Args[0])
+		for _, arg := range n.Args[1:] {
+			if _, u := ev.eval(arg).(*UndefV); u {
+				return &UndefV{}
+			}
+		}
 		a, b := ev.term(n.Args[1]), ev.term(n.Args[2])
 		if a.Sort == SF64 && b.Sort == SInt {
 			b, _ = litToFloat(b)
@@ -680,6 +687,8 @@ func (ev *Eval) callExpr(n *ast.CallExpr) Value {
 		return ev.withState(ev.loop.pre, false, func() Value { return ev.eval(n.Args[0]) })
 	case "len":
 		switch w := ev.eval(n.Args[0]).(type) {
+		case *UndefV:
+			return w
 		case *SliceV:
 			return &Prim{T: w.Len}
 		case *Prim:
